@@ -31,7 +31,7 @@ def random_program(rnd, L, n):  # noqa: N803
     for _ in range(n):
         x = rnd.random()
         if x < 0.35:
-            size = rnd.choice([0, 1, 7, 100, 4096, 65536, 65537, 300000, L // 3 + 1, -1, None])
+            size = rnd.choice([0, 1, 7, 100, 4096, 65536, 65537, 300000, 524288, 524289, L // 3 + 1, max(1, L - 3), -1, None])
             prog.append(('read', size))
         elif x < 0.45:
             prog.append(('tell',))
